@@ -78,6 +78,27 @@ func (f *memPoolFile) GetNextRegionOffset(offset int64, regionType filesystem.Re
 	return int64(len(f.data)), nil
 }
 
+// faultyPool is memPool with a switch that makes writes fail.
+type faultyPool struct {
+	failWrites bool
+}
+
+type faultyPoolFile struct {
+	memPoolFile
+	pool *faultyPool
+}
+
+func (p *faultyPool) NewFile(holeSource pool.HoleSource, size uint64) (filesystem.FileReadWriter, error) {
+	return &faultyPoolFile{memPoolFile: memPoolFile{data: make([]byte, size)}, pool: p}, nil
+}
+
+func (f *faultyPoolFile) WriteAt(p []byte, off int64) (int, error) {
+	if f.pool.failWrites {
+		return 0, status.Error(codes.Internal, "simulated disk failure in the file pool")
+	}
+	return f.memPoolFile.WriteAt(p, off)
+}
+
 // counterGenerator hands out distinct, deterministic inode numbers.
 type counterGenerator struct {
 	mu sync.Mutex
